@@ -531,8 +531,8 @@ class _fill_adaptive_u:
                    count_of(a.self) == c1, shape_of(e1)[0] == c1,
                    result >= 0, result < c1, edge(result) <= v, v < edge(result + 1),
                    forall(0, c1, lambda j: And(
-                       f1[j] == If(And(j >= shift, j < shift + c0), f0[j - shift], 0) + If(j == result, wt, 0),
-                       e1[j] == If(And(j >= shift, j < shift + c0), e0[j - shift], 0) + If(j == result, wt * wt, 0))),
+                       f1[j] == If(And(j >= shift, j < shift + c0), lambda: f0[j - shift], 0) + If(j == result, wt, 0),
+                       e1[j] == If(And(j >= shift, j < shift + c0), lambda: e0[j - shift], 0) + If(j == result, wt * wt, 0))),
                    same(elems(attr(old.self, "_missed")), elems(attr(a.self, "_missed"))))
 
     @ensures("no_more_bins_than_needed")
